@@ -322,10 +322,10 @@ def outcome(conn, req):
 
 
 class Server:
-    def __init__(self, bindir):
+    def __init__(self, bindir, timeout=600):
         self.dir = tempfile.mkdtemp(prefix="c19-", dir=os.path.join(vlib.VERIF, "target"))
         self.path = os.path.join(self.dir, "s")
-        self.p = subprocess.Popen([os.path.join(bindir, "varlink-certification"), "--varlink=unix:" + self.path, "--timeout=600"], stdout=subprocess.DEVNULL, stderr=subprocess.DEVNULL)
+        self.p = subprocess.Popen([os.path.join(bindir, "varlink-certification"), "--varlink=unix:" + self.path, "--timeout=%d" % timeout], stdout=subprocess.DEVNULL, stderr=subprocess.DEVNULL)
         t0 = time.time()
         while not os.path.exists(self.path):
             if time.time() - t0 > 10 or self.p.poll() is not None:
@@ -496,6 +496,7 @@ def main(tier, replay):
             negative(ctx, srv, k, req, kind)
         concurrent(ctx, srv, 8 if tier == "quick" else 200)
         after_end(ctx, srv)
+        slow_clients(ctx, bindir, tier)
         replay_race(ctx, srv, 2500 if tier == "quick" else 40000)
         if srv.p.poll() is not None:
             ctx.violation("c19:server-died", {"status": srv.p.returncode})
@@ -607,6 +608,60 @@ def negative(ctx, srv, k, req, kind):
         # not a property violation (the statement only forbids passing deviations), but it means
         # the harness' idea of "deviation" is off: report as inconclusive so that it is looked at
         ctx.inconc({"negative_control_failed": kind, "step": STEPS[k], "outcome": out})
+
+
+def slow_clients(ctx, bindir, tier):
+    """The canonical sequence succeeds for a client that takes its time, whatever idle timeout the
+    service runs with (the idle timeout concerns a service nobody is connected to)."""
+    for timeout, pauses in ((0, {3: 2.2}), (1, {1: 1.3, 6: 2.4}), (2, {8: 3.3})) if tier == "quick" else ((0, {3: 2.2, 9: 5.0}), (1, {1: 1.3, 6: 2.4}), (2, {8: 3.3}), (5, {2: 7.5})):
+        try:
+            srv = Server(bindir, timeout=timeout)
+        except RuntimeError as e:
+            ctx.inconc({"slow_clients": repr(e)})
+            continue
+        try:
+            ok = 0
+            for attempt in range(2):
+                c = Conn(srv.path)
+                c.s.settimeout(20)
+                cid, prev, failed = None, {}, None
+                for i, step in enumerate(STEPS):
+                    if i in pauses:
+                        time.sleep(pauses[i])
+                    req = request(step, cid, prev)
+                    c.send(req)
+                    if step == "Test11":
+                        prev = {}
+                        continue
+                    replies = []
+                    while True:
+                        f = c.frame()
+                        if f is None or f.get("error"):
+                            failed = (step, f)
+                            break
+                        replies.append(f.get("parameters") or {})
+                        if not f.get("continues"):
+                            break
+                    if failed:
+                        break
+                    prev = replies[-1]
+                    if step == "Start":
+                        cid = prev.get("client_id")
+                    if step == "Test10":
+                        prev = {"__more__": [r["string"] for r in replies]}
+                c.close()
+                if not failed:
+                    ok = 1
+                    break
+            ctx.case(("slow-client", timeout))
+            ctx.count("slow_canonical_clients", 1)
+            if not ok:
+                ctx.violation("c19:canonical-sequence-fails:slow-client", {"engine": "c19", "kind": "slow-client", "service_idle_timeout": timeout, "pauses_before_step_s": {STEPS[k]: v for k, v in pauses.items()},
+                              "message": "a canonical client that pauses between steps was refused at %s (twice): %s" % (failed[0], json.dumps(failed[1]))})
+        except (OSError, ValueError, socket.timeout) as e:
+            ctx.inconc({"slow_clients": repr(e), "timeout": timeout})
+        finally:
+            srv.stop()
 
 
 def after_end(ctx, srv):
